@@ -14,7 +14,7 @@ def gen(chk, tier):
     pt = ec.mul(d)
     px, py = b32(pt[0]), b32(pt[1])
     # ZA: id lengths 0..200 (every residue of the preimage length mod 64), around 8000, the ENTL limit
-    idl = list(range(0, 70 if q else 201)) + [100, 117, 181]
+    idl = list(range(0, 70 if q else 601)) + [100, 117, 181]
     idl += [8000 + r for r in (range(0, 64, 7) if q else range(64))]
     idl += [8189, 8190, 8191, 8192, 8193, 8200, 10000] + ([] if q else [16384, 20000])
     for L in idl:
@@ -27,7 +27,7 @@ def gen(chk, tier):
         g.one("za_pubkeys", "sm2.za", id=rb(rng, 16), pubx=b32(p2[0]), puby=b32(p2[1]))
     # id- and za-level signing and verification = digest level on e = SM3(ZA || M):
     # message lengths over every residue mod 64 (ZA || M crosses the padding boundaries)
-    msgl = list(range(0, 66 if q else 131)) + [119, 120, 1000]
+    msgl = list(range(0, 66 if q else 451)) + [119, 120, 1000]
     for L in msgl:
         for kind in (("id", "za") if (not q or L % 3 == 0) else ("id",)):
             kw = dict(kind=kind, priv=b32(d), msg=rb(rng, L), script=sm2gen.script_of([rscalar(rng), rscalar(rng)]))
@@ -49,7 +49,7 @@ def gen(chk, tier):
     # rejected candidates through the wrappers
     g.one("wrappers_rejections", "sm2.sign", kind="za", za=rb(rng, 32), msg=rb(rng, 10), priv=b32(d),
           script=sm2gen.script_of([0, N, rscalar(rng), rscalar(rng)]))
-    chk.extra["openssl_signatures"] = openssl_cases(chk, g, 6 if q else 60)
+    chk.extra["openssl_signatures"] = openssl_cases(chk, g, 6 if q else 200)
     return g.cmds
 
 
